@@ -5,6 +5,7 @@ they reach handlers.
 """
 
 import asyncio
+import posixpath
 import time
 from dataclasses import dataclass, field
 from ipaddress import (
@@ -14,7 +15,7 @@ from ipaddress import (
     ip_network,
 )
 from typing import Protocol
-from urllib.parse import urlparse
+from urllib.parse import unquote, urlparse
 
 
 class Middleware(Protocol):
@@ -337,14 +338,20 @@ class CertificateAuth:
         Args:
             request_url: The full request URL.
 
+        The path is returned in the canonical form of the resource it denotes,
+        so that a rule cannot be sidestepped by another spelling of the same
+        location: percent-escapes are decoded, dot segments and repeated or
+        leading slashes are collapsed (as path resolution does when serving).
+
         Returns:
-            The path component of the URL, or "/" if none.
+            The canonical path component of the URL, or "/" if none.
         """
         try:
             parsed = urlparse(request_url)
-            return parsed.path or "/"
+            path = parsed.path or "/"
         except Exception:
             return "/"
+        return "/" + posixpath.normpath(unquote(path)).lstrip("/")
 
     def _find_matching_rule(self, path: str) -> CertificateAuthPathRule | None:
         """Find the first matching path rule.
@@ -355,8 +362,12 @@ class CertificateAuth:
         Returns:
             The first matching rule, or None if no rule matches.
         """
+        # A directory may be requested without its trailing slash
+        # ("/admin" is the resource a "/admin/" rule protects)
+        as_directory = path if path.endswith("/") else path + "/"
+
         for rule in self.config.path_rules:
-            if path.startswith(rule.prefix):
+            if path.startswith(rule.prefix) or as_directory.startswith(rule.prefix):
                 return rule
         return None
 
